@@ -104,10 +104,11 @@ func (cw *CobsWrapper) Read(b []byte) (int, error) {
 	// current location in read buffer
 	var cur int
 
+	// set once we have seen the first non-zero byte of a packet
+	foundStart := false
+
 	// first, process any leftover bytes looking for packets
 	if cw.readLeftover.Len() > 0 {
-		foundStart := false
-
 		lb := cw.readLeftover.Bytes()
 		for i := 0; i < len(lb); i++ {
 			if !foundStart {
@@ -117,20 +118,29 @@ func (cw *CobsWrapper) Read(b []byte) (int, error) {
 				foundStart = true
 			}
 			if lb[i] == 0 {
-				// found end of packet, copy to read buffer and process
-				_, _ = cw.readLeftover.Read(b[0:i])
-				return cobsDecodeInplace(b[0:i])
+				// found end of packet, copy to read buffer (including the
+				// trailing zero) and process
+				if i+1 > len(b) {
+					cw.readLeftover.Next(i + 1)
+					return 0, ErrCobsTooMuchData
+				}
+				c, _ := cw.readLeftover.Read(b[0 : i+1])
+				return cobsDecodeInplace(b[0:c])
 			}
 		}
 
-		// write leftover bytes to beginning of buffer
-		bBuf := bytes.NewBuffer(b)
-		c, _ := bBuf.Write(cw.readLeftover.Bytes())
-
-		cur += c
+		if !foundStart {
+			// only zeros are left over, nothing worth keeping
+			cw.readLeftover.Reset()
+		} else {
+			// move the partial packet to the beginning of the read buffer
+			if cw.readLeftover.Len() >= len(b) {
+				cw.readLeftover.Reset()
+				return 0, ErrCobsTooMuchData
+			}
+			cur, _ = cw.readLeftover.Read(b)
+		}
 	}
-
-	foundStart := false
 
 	for {
 		c, err := cw.dev.Read(b[cur:])
@@ -157,7 +167,10 @@ func (cw *CobsWrapper) Read(b []byte) (int, error) {
 			}
 		}
 
-		cur += c
+		if foundStart {
+			cur += c
+		}
+		// else we have only seen leading zeros, which can be dropped
 
 		if cur >= len(b) || cur > cw.maxMessageLength {
 			return 0, ErrCobsTooMuchData
